@@ -385,6 +385,32 @@ func didOps(e *didEnv, v didVariant) []explore.Op {
 			deact(d1, 1, +1, R1),
 		)
 	}
+	// rollback routes: an accepted-looking message followed by a failing one in the same transaction, and transactions
+	// that are only simulated / checked on the node
+	failing := &didtypes.MsgDeactivateDIDRequest{Did: didtypes.NewDID([]byte("never-created")), VerificationMethodId: "x", Signature: []byte{1}, FromAddress: R1.Bech}
+	ops = append(ops,
+		explore.Op{Name: "Tx[Update(d1,D2(d1),k1),failing]", Rollback: true, Tx: func(w *world.World, m any) *world.TxSpec {
+			doc := e.doc("D2", d1)
+			up := &didtypes.MsgUpdateDIDRequest{Did: d1, Document: doc, VerificationMethodId: e.vmID(d1, 1), Signature: e.sign(doc, seqOf(m, d1), 1), FromAddress: R1.Bech}
+			return &world.TxSpec{Msgs: []sdk.Msg{up, failing}, Signers: []*world.Account{R1}, Fee: aolFee}
+		}},
+		explore.Op{Name: "Tx[Deactivate(d1,k1),failing]", Rollback: true, Tx: func(w *world.World, m any) *world.TxSpec {
+			de := &didtypes.MsgDeactivateDIDRequest{Did: d1, VerificationMethodId: e.vmID(d1, 1), Signature: e.sign(&didtypes.DIDDocument{Id: d1}, seqOf(m, d1), 1), FromAddress: R1.Bech}
+			return &world.TxSpec{Msgs: []sdk.Msg{de, failing}, Signers: []*world.Account{R1}, Fee: aolFee}
+		}},
+		explore.Op{Name: "Simulate(Update(d1,D2(d1),k1))", Aux: "simulate", Rollback: true, Tx: func(w *world.World, m any) *world.TxSpec {
+			doc := e.doc("D2", d1)
+			up := &didtypes.MsgUpdateDIDRequest{Did: d1, Document: doc, VerificationMethodId: e.vmID(d1, 1), Signature: e.sign(doc, seqOf(m, d1), 1), FromAddress: R1.Bech}
+			return tx(R1, up)
+		}},
+		explore.Op{Name: "Simulate(Create(d1,D1(d1),k1))", Aux: "simulate", Rollback: true, Tx: func(w *world.World, m any) *world.TxSpec {
+			doc := e.doc("D1", d1)
+			return tx(R1, &didtypes.MsgCreateDIDRequest{Did: d1, Document: doc, VerificationMethodId: e.vmID(d1, 1), Signature: e.sign(doc, 0, 1), FromAddress: R1.Bech})
+		}},
+		explore.Op{Name: "CheckTx(Deactivate(d1,k1))", Aux: "checktx", Rollback: true, Tx: func(w *world.World, m any) *world.TxSpec {
+			return tx(R1, &didtypes.MsgDeactivateDIDRequest{Did: d1, VerificationMethodId: e.vmID(d1, 1), Signature: e.sign(&didtypes.DIDDocument{Id: d1}, seqOf(m, d1), 1), FromAddress: R1.Bech})
+		}},
+	)
 	if v.EmptyID {
 		ops = append(ops, create(d1, d1, "De", 1, 0, R1))
 		// empty-id document whose did field is d1: the document handed to the chain has Id ""
@@ -506,7 +532,20 @@ func didSystem(v didVariant) *explore.System {
 		isReplay := strings.HasPrefix(s.Op.Name, "Replay(#") && !strings.Contains(s.Op.Name, "did:=")
 		expect, why := false, "signatures do not cover GetSigners"
 		if signersCover(s.Spec.Msgs, s.Spec.Signers) {
-			expect, why = didExpect(m, s.Spec.Msgs[0], true)
+			// all-or-nothing over the transaction's messages
+			scratch := m.clone()
+			expect, why = true, ""
+			for _, msg := range s.Spec.Msgs {
+				if ok, w := didExpect(scratch, msg, true); !ok {
+					expect, why = false, w
+					break
+				}
+			}
+			if expect {
+				for _, msg := range s.Spec.Msgs {
+					didExpect(m, msg, true)
+				}
+			}
 		}
 		got := s.Res.Code == 0
 		post := s.W.Dump("did")
